@@ -22,7 +22,9 @@ A program is a tree of node specs (plain hashable tuples, so they can be Module 
 The reference interpreter (ref_vars / ref_run) is written from the documented semantics only and shares no code with flax."""
 import numpy as np
 
-CLASH_KINDS = ['submodule_submodule', 'submodule_variable', 'variable_variable']
+CLASH_KINDS = ['submodule_submodule', 'submodule_variable', 'variable_variable', 'variable_then_submodule', 'param_then_submodule',
+               'state_variable_variable', 'submodule_then_state_variable']
+LEGAL_SAME_NAME = ['same_name_two_collections']
 LEAKS = []  # filled by the 'leak' op: (module, scope)
 DRAWS = []  # filled by the noise op when RECORD_DRAWS: (stream, np.ndarray of the noise)
 RECORD = {'draws': False}
@@ -126,9 +128,27 @@ def classes():
       elif kind == 'submodule_variable':
         nn.Dense(2, name='dup')(x)
         self.param('dup', nn.initializers.ones, ())
+      elif kind == 'variable_variable':
+        self.param('dup', nn.initializers.ones, ())
+        self.param('dup', nn.initializers.ones, ())
+      elif kind == 'variable_then_submodule':
+        self.variable('cache', 'dup', lambda: jnp.zeros(()))
+        nn.Dense(2, name='dup')(x)
+      elif kind == 'param_then_submodule':
+        self.param('dup', nn.initializers.ones, ())
+        nn.Dense(2, name='dup')(x)
+      elif kind == 'state_variable_variable':
+        self.variable('state', 'dup', lambda: jnp.zeros(()))
+        self.variable('state', 'dup', lambda: jnp.ones(()))
+      elif kind == 'submodule_then_state_variable':
+        nn.Dense(2, name='dup')(x)
+        self.variable('batch_stats', 'dup', lambda: jnp.zeros(()))
+      elif kind == 'same_name_two_collections':
+        # legal: the same variable name in two different collections
+        self.variable('state', 'dup', lambda: jnp.zeros(()))
+        self.variable('cache', 'dup', lambda: jnp.ones(()))
       else:
-        self.param('dup', nn.initializers.ones, ())
-        self.param('dup', nn.initializers.ones, ())
+        raise ValueError(kind)
 
     @nn.compact
     def __call__(self, x):
